@@ -196,9 +196,12 @@ impl Rec {
 
 // ---- hang watchdog: a library call that does not return. Every worker owns a slot; `guarded` stamps the slot
 // with a coarse tick (advanced once per second by the watchdog thread) on entry and clears it on exit. A slot
-// that stays stamped for HANG_SECS means one call has been running that long: the run is ended with a
+// that stays stamped for hang_secs() (600 s unless VERIF_HANG_SECS says otherwise) means one call has been running that long: the run is ended with a
 // violation of the running property ("does not return"), carrying the last event the worker recorded.
-pub const HANG_SECS: u64 = 300;
+pub const HANG_SECS_DEFAULT: u64 = 600;
+pub fn hang_secs() -> u64 {
+    std::env::var("VERIF_HANG_SECS").ok().and_then(|v| v.parse().ok()).unwrap_or(HANG_SECS_DEFAULT)
+}
 pub static TICK: std::sync::atomic::AtomicU64 = std::sync::atomic::AtomicU64::new(1);
 const NSLOTS: usize = 256;
 #[allow(clippy::declare_interior_mutable_const)]
